@@ -362,13 +362,14 @@ static void run_config(const Config & c, uint64_t seed, long n_iid, int n_grid)
     // deep steering through the daughter's de-excitation cascade (thresholds given on the spec line)
     long deep_events = getenv("VERIF_DEEP_EVENTS") ? atol(getenv("VERIF_DEEP_EVENTS")) : 0;
     if (deep_events > 0 && !c.thr.empty()) {
-      ds = deep_steer(tape, seed, stream + (1ULL << 22), c.thr, deep_events - deep_events / 3, 4, [&](const std::string & steer, size_t & d) {
+      const long pass2 = std::min(deep_events / 3, 1500000L);
+      ds = deep_steer(tape, seed, stream + (1ULL << 22), c.thr, deep_events - pass2, 4, [&](const std::string & steer, size_t & d) {
         one(steer);
         d = last_draws;
         return last_sig;
       });
       // second pass guided by (branch, number of deviates): both sides of every accept/reject boundary (see c01_diff.cc)
-      DeepSteerStats ds2 = deep_steer(tape, seed, stream + (1ULL << 22) + 64, c.thr, deep_events / 3, 4, [&](const std::string & steer, size_t & d) {
+      DeepSteerStats ds2 = deep_steer(tape, seed, stream + (1ULL << 22) + 64, c.thr, pass2, 4, [&](const std::string & steer, size_t & d) {
         one(steer);
         d = last_draws;
         return last_sig * 1000003ull + (uint64_t)last_draws;
